@@ -1,5 +1,5 @@
 import slayer
-from props.scommon import scen, preempt_scenario, pp_exact_fit_scenario, pp_cutoff_scenario, preempt_lockstep_scenario, resume_elsewhere_scenario
+from props.scommon import scen, preempt_scenario, pp_exact_fit_scenario, pp_cutoff_scenario, preempt_lockstep_scenario, resume_elsewhere_scenario, queued_siblings_scenario
 """C12 - priority: strict priority order, work conservation, query-only preemption"""
 
 
@@ -14,6 +14,8 @@ def scenarios(ctx, n):
         yield preempt_lockstep_scenario(s + i)
     for i in range(max(4, n // 16)):
         yield resume_elsewhere_scenario(s + i)
+    for i in range(max(6, n // 12)):
+        yield queued_siblings_scenario(s + i)
 
 
 def run(ctx):
